@@ -52,9 +52,14 @@ def check(run: Run) -> None:
     if len(classes) != 1:
         raise AnalysisError("resolve_syntatic_sugar no longer contains one transformer")
     cls = classes[0]
-    for need in ("resolve_generator", "visit_ListComp", "visit_GeneratorExp", "convert_call_to_dict", "visit_Call"):
+    for need in ("resolve_generator", "visit_ListComp", "visit_GeneratorExp", "visit_Call"):
         if need not in cls.methods:
             raise AnalysisError(f"anchor vanished: syntax_transformer.{need}")
+    # the constructor binder: a method of the transformer, or (it does not use self) a function beside it
+    cd = cls.methods.get("convert_call_to_dict") or m.modules[mod].functions.get("convert_call_to_dict")
+    if cd is None:
+        raise AnalysisError("anchor vanished: syntax_transformer.convert_call_to_dict")
+    cd_off = 1 if cd.cls is not None else 0
 
     # ---------------- R1
     rg = cls.methods["resolve_generator"]
@@ -133,9 +138,8 @@ def check(run: Run) -> None:
     run.check(terms["visit_ListComp"] == terms["visit_GeneratorExp"], "C06.R2", cls.methods["visit_GeneratorExp"], cls.methods["visit_GeneratorExp"].node, "list comprehension and generator expression are lowered identically", "visit_ListComp and visit_GeneratorExp produce different lowerings")
 
     # ---------------- R4
-    cd = cls.methods["convert_call_to_dict"]
     fc = ctx.analysis(cd)
-    ap, sigp = ("param", cd.pos_params[1]), ("param", cd.pos_params[3])
+    ap, sigp = ("param", cd.pos_params[cd_off]), ("param", cd.pos_params[cd_off + 2])
     def _len_norm(t):
         """len(list(x)) is len(x)"""
         if isinstance(t, tuple):
@@ -144,7 +148,32 @@ def check(run: Run) -> None:
                 return ("app", ("global", "builtins.len"), (t[2][0][2][0],), ())
         return t
 
-    rt = _len_norm(strip_sites(fc.return_term()))
+    def _seq_norm(t):
+        """islice(x, a, None) is x[a:]; the first halves of zip(A, B) are A[:len(B)] (zip stops at the shorter, a slice
+        clamps): [f(n) for n, _ in zip(A, B)] is [f(n) for n in A[:len(B)]]"""
+        from ..terms import subst
+
+        if not isinstance(t, tuple):
+            return t
+        t = tuple(_seq_norm(x) for x in t)
+        if len(t) == 4 and t[0] == "app" and t[1][0] == "global" and t[1][1].endswith("islice") and not t[3]:
+            if len(t[2]) == 3 and t[2][2] == ("const", None):
+                return ("slice", t[2][0], t[2][1], None)
+            if len(t[2]) == 2:
+                return ("slice", t[2][0], None, t[2][1])
+        if len(t) == 4 and t[0] == "comp" and len(t[3]) == 1 and not t[3][0][1]:
+            z = t[3][0][0]
+            if z[0] == "app" and z[1] == ("global", "builtins.zip") and len(z[2]) == 2:
+                first = ("index", ("elem", z), 0)
+                rest = subst(t[2], {first: ("top", "first-of-zip")})
+                from ..terms import contains as _contains
+
+                if not _contains(rest, lambda q: q == ("elem", z)):
+                    src = ("slice", z[2][0], None, ("app", ("global", "builtins.len"), (z[2][1],), ()))
+                    return ("comp", t[1], subst(t[2], {first: ("elem", src)}), ((src, ()),))
+        return t
+
+    rt = _len_norm(_seq_norm(strip_sites(fc.return_term())))
     d = dict(rt[2]) if rt[0] == "new" and rt[1] == "Dict" else {}
     keys, values = d.get("keys"), d.get("values")
     n_pos = ("app", ("global", "builtins.len"), (("attr", ap, "args"),), ())
@@ -174,7 +203,7 @@ def check(run: Run) -> None:
     run.check(ok_vals and ok_keys, "C06.R4", cd, cd.node, "positional values bind to sig_arg_names[:len(args)] in order", f"convert_call_to_dict returns {show(rt)[:200]}: positional arguments are not bound to the first len(args) field names in order", term=show(rt))
     # keywords by name among the remaining names
     loops = [n for n in own_nodes(cd) if isinstance(n, ast.For)]
-    rem = [lp for lp in loops if _len_norm(strip_sites(fc.term_of(lp.iter, fc.cfg.node_of(lp)))) == ("slice", sigp, n_pos, None)]
+    rem = [lp for lp in loops if _len_norm(_seq_norm(strip_sites(fc.term_of(lp.iter, fc.cfg.node_of(lp))))) == ("slice", sigp, n_pos, None)]
     ok_kw = False
     if len(rem) == 1:
         lp = rem[0]
@@ -184,7 +213,7 @@ def check(run: Run) -> None:
             # values.append(lookup[name]); names.append(Constant(name)) under `name in lookup`
             fx = Facts(fc, apps[0])
             guarded = any(pol and isinstance(a, ast.Compare) and isinstance(a.ops[0], ast.In) and isinstance(a.left, ast.Name) and a.left.id == lp.target.id for a, pol in fx.atoms)  # type: ignore
-            t_vals = [_len_norm(strip_sites(fc.term_of(c.args[0]))) for c in apps]
+            t_vals = [_len_norm(_seq_norm(strip_sites(fc.term_of(c.args[0])))) for c in apps]
             has_val = any(t[0] == "subscript" and t[2] == ("elem", ("slice", sigp, n_pos, None)) for t in t_vals)
             has_key = any(t[0] == "new" and t[1] == "Constant" and dict(t[2]).get("value") == ("elem", ("slice", sigp, n_pos, None)) for t in t_vals)
             ok_kw = guarded and has_val and has_key
